@@ -5,7 +5,7 @@ from pyvc import harness
 PROPERTY = "C18"
 LEVEL = "proof"
 CONTRACT_MODULES = ["contracts.c18_alias"]
-TARGETS = ["AliasGet", "AliasSet", "AliasDelete", "DepGet", "DepSet", "DepDelete"]
+TARGETS = ["AliasGet", "AliasSet", "AliasDelete", "DepGet", "DepSet", "DepDelete", "AliasSetName"]
 ASSUMPTIONS = [
     "scope: attribute paths of one or two identifier components (`a`, `a.b`); the cached parse result _attr_path is taken as a record field; the path "
     "parser (regular expression) and [\"key\"] components (string slicing, ast.literal_eval) are outside the verified subset: bounded stand-in",
